@@ -24,7 +24,9 @@ Inductive op :=
 | Append (k : Z)                 (* k >= 1 messages appended *)
 | Consume (n : name) | Ack (n : name) (a : Z) | SetConsumed (n : name) (c : Z)
 | Sync | GC
-| Create (n : name) | Stop (n : name) | Reopen.
+| Create (n : name) | Stop (n : name) | Reopen
+| SetAppended (v : Z).           (* FanOutQueue.SetAppendedSeq: the explicit index reset - the log head and the queue ack go
+                                    to v, every attached group's two positions as well *)
 
 (* NewConsumerGroup on an existing meta page *)
 Definition load (q : Z) (g : grp) : grp :=
@@ -87,6 +89,9 @@ Definition step (s : fq) (o : op) : fq :=
   | Reopen =>
     {| appended := appended s; qack := qack s;
        opened := map (fun '(n, g) => (n, load (qack s) g)) (opened s ++ stored s); stored := []; ifloor := ifloor s |}
+  | SetAppended v =>
+    {| appended := v; qack := v; opened := map (fun '(n, _) => (n, {| consumed := v; gack := v |})) (opened s);
+       stored := stored s; ifloor := ifloor s |}
   end.
 
 Definition init : fq := {| appended := -1; qack := -1; opened := []; stored := []; ifloor := 0 |}.
@@ -108,7 +113,11 @@ Definition op_ok (s : fq) (o : op) : Prop :=
   match o with
   | Append k => 1 <= k
   | SetConsumed n c => match lookup n (opened s) with Some g => gack g <= c <= appended s | None => True end
+  (* a reset to v: no stopped group's stored positions lie above v, no index page at or above v's has been collected *)
+  | SetAppended v => -1 <= v /\ (forall n g, In (n, g) (stored s) -> consumed g <= v) /\
+                     (0 <= v -> ifloor s <= v / IPP) /\ (v < 0 -> ifloor s = 0)
   | _ => True
   end.
+Definition is_reset (o : op) : bool := match o with SetAppended _ => true | _ => false end.
 Fixpoint hist_ok (s : fq) (ops : list op) : Prop :=
   match ops with [] => True | o :: ops' => op_ok s o /\ hist_ok (step s o) ops' end.
